@@ -290,7 +290,8 @@ LC == INSTANCE Lifecycle WITH
         origin   <- [i \in LIds |-> IF i <= Len(st) THEN aux[i].origin ELSE 0],
         saved    <- {d.by : d \in disk},
         NScal    <- LMaxScal,
-        scal     <- [i \in LIds |-> IF i <= Len(st) /\ st[i].hasx THEN 1 + (NToInt(st[i].x) % LMaxScal) ELSE 0]
+        scal     <- [i \in LIds |-> IF i <= Len(st) /\ st[i].hasx THEN 1 + (NToInt(st[i].x) % LMaxScal) ELSE 0],
+        limbo    <- [i \in LIds |-> i <= Len(st) /\ st[i].limbo]
 RefinesLifecycle == LC!StepOK
 LifecycleInv == LC!IndInv
 =============================================================================
